@@ -221,7 +221,7 @@ def h_pow_kinds(ctx, which, D, P):
     X = np.empty((D, P, 2), dtype=object)
     # the zeroth coefficient is positive only where the power needs it (real / complex exponents); integer
     # exponents n >= 0 take any base (zero included), negative ones any non-zero base
-    needs_pos = which in ('npfloat_exp', 'pycomplex_exp', 'npcomplex_exp', 'npcomplex64_exp', 'nd0complex_exp')
+    needs_pos = which == 'array_exp_real_more_axes' or which in ('npfloat_exp', 'pycomplex_exp', 'npcomplex_exp', 'npcomplex64_exp', 'nd0complex_exp')
     for idx in np.ndindex(*X.shape):
         X[idx] = ctx.var('x%s' % list(idx), pos=(idx[0] == 0 and needs_pos))
         if idx[0] == 0 and which == 'negint_exp':
@@ -282,6 +282,68 @@ def h_pow_kinds(ctx, which, D, P):
                 ref = lib.compose([cmath.exp(M[0])] * D, M, D)
                 for d in range(D):
                     ctx.eq(Z[d, p, i], ref[d], 'z[%d,%d,%d]' % (d, p, i))
+        return
+    elif which.startswith('array_exp_'):
+        # an ARRAY of exponents: broadcast against the shape of x like the operand of any other
+        # operator (result shape = NumPy broadcast shape for every P), element-wise power;
+        # whole-number entries take the exact path (any base, zero included)
+        r = {'array_exp_int_same_shape': np.array([1, 3]), 'array_exp_int_more_axes': np.array([[0, 1], [2, 3], [1, 1]]),
+             'array_exp_intvalued_float': np.array([2.0, 1.0]), 'array_exp_list': [2, 3],
+             'array_exp_real_more_axes': np.array([[1.5, 0.5], [2.5, -0.5]]), 'array_exp_column': np.array([[2], [3]])}[which]
+        z = x ** r
+        ra = np.asarray(r)
+        oshape = np.broadcast_shapes((2,), ra.shape)
+        Z = plain(z.data)
+        ctx.fact(Z.shape == (D, P) + oshape, 'x(2,) ** exponents%s has shape %s (P = %d): %s' % (ra.shape, oshape, P, Z.shape[2:]))
+        if Z.shape != (D, P) + oshape:
+            return
+        rb = np.broadcast_to(ra, oshape)
+        for p in range(P):
+            for o in np.ndindex(*oshape):
+                xs = [X[d, p, o[-1]] for d in range(D)]
+                e = rb[o]
+                if float(e).is_integer():
+                    tab = lib.d_powi(ctx, xs[0], D - 1, n=int(e))
+                else:
+                    tab = lib.d_powr(ctx, xs[0], D - 1, r=Fraction(float(e)))
+                ref = lib.compose(tab, xs, D)
+                for d in range(D):
+                    ctx.eq(Z[(d, p) + o], ref[d], 'z[%d,%d,%s]' % (d, p, o))
+        return
+    elif which in ('huge_int_exp', 'huge_intvalued_float_exp'):
+        # x ** n with n = 2**31 - 1 (as in (1 + r/n)**n): the value against exp(n log x) by composition,
+        # and the call must come back (a product per unit of n would take hours).  Concrete
+        # numbers, a wall-clock guard of 60 s: decided on the float build.
+        if ctx.mode == 'sym':
+            ctx.fact(True, 'huge exponent: decided on the float build')
+            ctx.eq(S.const(0), S.const(0), 'z')
+            return
+        import threading
+        n = 2 ** 31 - 1
+        r = n if which == 'huge_int_exp' else float(n)
+        Xc = np.array([[[1.0 + 2.0 ** -31, 1.0 - 2.0 ** -32]] * P] + [[[2.0 ** -31 * (d + 1), -2.0 ** -33 * d]] * P for d in range(1, D)])
+        box = {}
+
+        def run():
+            try:
+                box['z'] = (algopy.UTPM(Xc.copy()) ** r).data
+            except Exception as e:
+                box['e'] = e
+        th = threading.Thread(target=run, daemon=True)
+        th.start()
+        th.join(60.0)
+        ctx.fact('z' in box, 'x ** %r returns within 60 s%s' % (r, ' (raised %s)' % type(box['e']).__name__ if 'e' in box else ''))
+        if 'z' not in box:
+            return
+        import math
+        for p in range(P):
+            for i in range(2):
+                xs = [float(Xc[d, p, i]) for d in range(D)]
+                L = lib.compose(lib.d_log(ctx, xs[0], D - 1), xs, D)
+                M = [n * l for l in L]
+                ref = lib.compose([math.exp(M[0])] * D, M, D)
+                for d in range(D):
+                    ctx.fact(abs(box['z'][d, p, i] - ref[d]) <= 1e-6 * max(1.0, abs(ref[d])), '(x ** %r)[%d,%d,%d] == exp(n log x) to 1e-6 (got %r, expected %r)' % (r, d, p, i, box['z'][d, p, i], ref[d]))
         return
     elif which in ('negbase_complex_poly', 'posbase_complex_poly'):
         # real scalar base (negative: log on the principal complex branch), COMPLEX polynomial exponent:
@@ -407,9 +469,10 @@ def units(tier, seed):
     for op in ('mul', 'div'):
         add('utpm %s utpm/(),()/D17,P1' % op, 'h_binop', op=op, lkind='utpm', rkind='utpm', lshape=(), rshape=(), D=17, P=1)
         add('utpm %s= utpm/(2,),(2,)/D17,P1' % op, 'h_binop', op=op, lkind='utpm', rkind='utpm', lshape=(2,), rshape=(2,), D=17, P=1, form='inplace')
-    for which in ('uint8_base', 'int8_base', 'float32_base', 'float16_base', 'int16_base', 'bigint_base', 'pycomplex_exp', 'npcomplex_exp', 'npcomplex64_exp', 'nd0complex_exp', 'negbase_complex_poly', 'posbase_complex_poly'):
+    for which in ('uint8_base', 'int8_base', 'float32_base', 'float16_base', 'int16_base', 'bigint_base', 'pycomplex_exp', 'npcomplex_exp', 'npcomplex64_exp', 'nd0complex_exp', 'negbase_complex_poly', 'posbase_complex_poly', 'huge_int_exp', 'huge_intvalued_float_exp'):
         add('pow/%s' % which, 'h_pow_kinds', which=which, D=D + 1, P=P)
     for which in ('pyfloat_base', 'pyint_base', 'npfloat_exp', 'npint_exp', 'negint_exp', 'pyint_exp0', 'pyint_exp1', 'pyint_exp2', 'pyint_exp3', 'pyint_exp4', 'pyint_exp5', 'pyint_exp7', 'pyint_exp6', 'pyint_exp9',
-                  'intvalued_pyfloat2', 'intvalued_npfloat3', 'intvalued_float32_2', 'intvalued_nd0int2', 'intvalued_nd0float4', 'intvalued_pyfloat6', 'intvalued_int8_3', 'intvalued_uint8_2'):
+                  'intvalued_pyfloat2', 'intvalued_npfloat3', 'intvalued_float32_2', 'intvalued_nd0int2', 'intvalued_nd0float4', 'intvalued_pyfloat6', 'intvalued_int8_3', 'intvalued_uint8_2',
+                  'array_exp_int_same_shape', 'array_exp_int_more_axes', 'array_exp_intvalued_float', 'array_exp_list', 'array_exp_real_more_axes', 'array_exp_column'):
         add('pow/%s' % which, 'h_pow_kinds', which=which, D=D + 1, P=P)
     return out
